@@ -2116,6 +2116,18 @@ func (a *Agent) getNominationValue() uint32 {
 // RenominateCandidate allows the controlling ICE agent to nominate a new candidate pair.
 // This implements the continuous renomination feature from draft-thatcher-ice-renomination-01.
 func (a *Agent) RenominateCandidate(local, remote Candidate) error {
+	var renominateErr error
+	if err := a.loop.Run(a.loop, func(context.Context) {
+		renominateErr = a.renominateCandidate(local, remote)
+	}); err != nil {
+		return err
+	}
+
+	return renominateErr
+}
+
+// renominateCandidate is RenominateCandidate for callers that already run on the agent's task loop.
+func (a *Agent) renominateCandidate(local, remote Candidate) error {
 	if !a.isControlling.Load() {
 		return ErrOnlyControllingAgentCanRenominate
 	}
